@@ -1024,3 +1024,10 @@ func GenProgram(t *rapid.T, o GenOpts, rsize int) (src string, mpm bool) {
 	g.emit("}")
 	return strings.Join(g.lines, "\n") + "\n", g.mpm
 }
+
+func b2i(b bool) int {
+	if b {
+		return 1
+	}
+	return 0
+}
